@@ -103,3 +103,30 @@ fn idles_wait_for_a_dispatch_that_returns_ok() {
     el.dispatch(Duration::ZERO, &mut log).unwrap();
     assert_eq!(log, vec!["source", "idle"], "the idle runs after the events of the first dispatch that returns Ok");
 }
+
+#[test]
+fn an_idle_inserted_after_a_cancellation_keeps_its_place_at_the_end() {
+    // X, Y inserted; X cancelled; Z inserted: Z runs after Y (insertion order), also when this happens inside an idle
+    let mut el: EventLoop<Log> = EventLoop::try_new().unwrap();
+    let h = el.handle();
+    let x = h.insert_idle(|log: &mut Log| log.push("x"));
+    h.insert_idle(|log: &mut Log| log.push("y"));
+    x.cancel();
+    h.insert_idle(|log: &mut Log| log.push("z"));
+    let mut log = Log::new();
+    el.dispatch(Duration::ZERO, &mut log).unwrap();
+    assert_eq!(log, vec!["y", "z"], "insertion order");
+    let h2 = h.clone();
+    h.insert_idle(move |log: &mut Log| {
+        log.push("outer");
+        let a = h2.insert_idle(|log: &mut Log| log.push("a"));
+        h2.insert_idle(|log: &mut Log| log.push("b"));
+        a.cancel();
+        h2.insert_idle(|log: &mut Log| log.push("c"));
+    });
+    log.clear();
+    el.dispatch(Duration::ZERO, &mut log).unwrap();
+    assert_eq!(log, vec!["outer"]);
+    el.dispatch(Duration::ZERO, &mut log).unwrap();
+    assert_eq!(log, vec!["outer", "b", "c"], "insertion order among idles inserted by an idle");
+}
